@@ -110,11 +110,26 @@ def allowedShapes : List (String × List (List String)) :=
     ("chown",    [["R"]]),
     ("chtimes",  [["R"], ["R", "W"]]) ]
 
+/-- file-mutex sections ("F") of each handle method (handle methods never touch mu): every I/O
+    method does its whole read-modify-write of the shared bytes in ONE section of the file's mutex.
+    `Seek` takes it only for `SeekEnd`; `Stat`, `Name`, `Sync` return without locking (the
+    `FileInfo` accessors are separate calls, read by the harness without preemption). -/
+def handleShapes : List (String × List (List String)) :=
+  [ ("h.read",    [["F"]]),
+    ("h.readat",  [["F"]]),
+    ("h.write",   [["F"]]),
+    ("h.writeat", [["F"]]),
+    ("h.trunc",   [["F"]]),
+    ("h.seek",    [[], ["F"]]),
+    ("h.close",   [["F"]]),
+    ("h.stat",    [[]]),
+    ("h.name",    [[]]),
+    ("h.sync",    [[]]) ]
+
 def shapeOK (op : String) (sh : List String) : Bool :=
-  if op.startsWith "h." then sh.isEmpty           -- handle methods never touch mu
-  else match allowedShapes.find? (·.1 = op) with
-    | some (_, shs) => shs.contains sh
-    | none => false
+  match (allowedShapes ++ handleShapes).find? (·.1 = op) with
+  | some (_, shs) => shs.contains sh
+  | none => false
 
 /-- at most one write section, and nothing after it -/
 def singleEffect (sh : List String) : Bool :=
@@ -123,6 +138,22 @@ def singleEffect (sh : List String) : Bool :=
 /-- every allowed shape has a single effect section, which comes last: reads first, then at most
     one write-locked section in which the method re-validates what it read and acts -/
 theorem shape_single_effect : ∀ e ∈ allowedShapes, ∀ sh ∈ e.2, singleEffect sh = true := by decide
+
+/-- every handle method touches the shared file state in at most one critical section: it is an
+    atomic operation of the fragment `conc_eq_seq` covers (no check-then-act gap, no half-applied
+    write visible between two sections) -/
+theorem handle_single_section : ∀ e ∈ handleShapes, ∀ sh ∈ e.2, sh.length ≤ 1 := by decide
+
+/-- what `shapeOK` accepts is in one of the two tables -/
+theorem shapeOK_sound (op : String) (sh : List String) (h : shapeOK op sh = true) :
+    ∃ e ∈ allowedShapes ++ handleShapes, e.1 = op ∧ sh ∈ e.2 := by
+  unfold shapeOK at h
+  split at h
+  · rename_i e shs hf
+    have hm := List.mem_of_find?_eq_some hf
+    have he := List.find?_some hf
+    exact ⟨_, hm, by simpa using he, by simpa using h⟩
+  · cases h
 
 /-! non-vacuity of the fragment theorem: two goroutines appending to a log -/
 example : (runConc (S := List Nat) (R := Nat) [] [[fun s => (s ++ [1], s.length)], [fun s => (s ++ [2], s.length)]] [1, 0]).1 = [2, 1] := by decide
